@@ -597,6 +597,9 @@ Section Walk.
     assert (HC : forall a, R s0 a -> R s0 (if eff_cancelled a (g_scope (groups a g)) then a
                                            else scope_cancel a (g_scope (groups a g)) false)).
     { intros a Ha. destruct (eff_cancelled a _); [exact Ha|now apply Rf_cancel]. }
+    assert (HC2 : forall a, R s0 a -> R s0 (if s_cancelled (scopes a (g_scope (groups a g))) then a
+                                            else scope_cancel a (g_scope (groups a g)) false)).
+    { intros a Ha. destruct (s_cancelled _); [exact Ha|now apply Rf_cancel]. }
     assert (HG : forall e, R s0 (upd_group s4 g (fun x => gr_excs (g_excs x ++ [(t, e)]) x)))
       by (intros; apply Rf_upd_group; auto).
     assert (HF : forall f v, R s0 (fut_complete s4 f v)) by (intros; eapply Rf; [exact H4|apply frame_fut_complete]).
@@ -608,10 +611,10 @@ Section Walk.
     - destruct (k_startfut (tasks s t)) as [f|].
       + destruct (f_st (futs s4 f)).
         * apply HF.
-        * destruct (is_cancel e); apply HC; [exact H4|apply HG].
-        * destruct (is_cancel e); apply HC; [exact H4|apply HG].
-        * destruct (is_cancel e); [exact H4|]. apply HC, HG.
-      + destruct (is_cancel e); apply HC; [exact H4|apply HG].
+        * destruct (is_cancel e); [apply HC; exact H4|apply HC2, HG].
+        * destruct (is_cancel e); [apply HC; exact H4|apply HC2, HG].
+        * destruct (is_cancel e); [exact H4|]. apply HC2, HG.
+      + destruct (is_cancel e); [apply HC; exact H4|apply HC2, HG].
     - destruct (k_startfut (tasks s t)) as [f|]; [|exact H4].
       destruct (f_st (futs s4 f)); [apply HF|exact H4|exact H4|exact H4].
   Qed.
